@@ -8,20 +8,19 @@
   `cellSynth c v d` = `cell c v; synth d`, `cellSet c v i w nd` = `cell c v; set i w nd`.
 
   PROVED: `c04_reexec_fetch`, `c04_reexec_mca` (any state, any program), `c04_not_evicted` (any
-  state), `c04_never_shallow`, `c04_results_partial` (reachable states of programs without `lru`
-  kinds: `NoLru P`, decidable for line-protocol programs as `es.all (·.1 != .lru)`).
+  state); for ALL well-formed programs, `lru` kinds and evictions included (stage S3b,
+  Proofs/Core3Evict*.lean): `c04_results`, `c04_never_shallow_lru`.
+  Kept from the earlier stage (hypothesis `NoLru P`, S3a invariant): `c04_never_shallow`,
+  `c04_results_partial`, `c04_results_prog_partial`.
 
-  NOT YET PROVED (stage S3b — LRU eviction in the invariant; the intended statements are the
-  same without the hypothesis `NoLru P`):
-    c04_results        : Wf P → ∀ inp cells cap ops q,
-                          (fetch P (run P inp cells cap ops) q).2.val = sem P … q
-    c04_never_shallow  for programs with `lru` kinds
+  NOT YET PROVED:
     c04_dependents_reused (equal value ⇒ backdated ⇒ no `exec` for readers; shown below on a
                           concrete history only).
 -/
 import SalsaVerif.Model.Core3
 import SalsaVerif.Proofs.Core3Top
 import SalsaVerif.Proofs.Core3Trace
+import SalsaVerif.Proofs.Core3EvictSound
 
 namespace SalsaVerif.Props.C04
 open SalsaVerif.Model.Core3 SalsaVerif.Proofs.Core3
@@ -78,6 +77,38 @@ theorem c04_results_prog_partial (es : List (Kind × Expr)) (h : wfList 0 es = t
       sem (progOf es) (run (progOf es) inp cells cap ops).inp (run (progOf es) inp cells cap ops).cells q :=
   c04_results_partial (wf_progOf es h) (noLru_progOf es hk) inp cells cap ops q
 
+/-- **Results with cell writes, all programs**: for every well-formed program (`lru` kinds
+    included), after any history of requests, input writes, synthetic writes, cell changes followed
+    by a new revision, capacity changes and evictions, every request returns the from-scratch value
+    over the current inputs and cells. -/
+theorem c04_results {P : Prog} (hP : Wf P) (inp : Nat → Inp) (cells : Nat → Nat)
+    (cap : Nat) (ops : List Op) (q : Nat) :
+    (fetch P (run P inp cells cap ops) q).2.val =
+      sem P (run P inp cells cap ops).inp (run P inp cells cap ops).cells q :=
+  Proofs.Core3E.c01_s3 hP inp cells cap ops q
+
+/-- line-protocol programs: decidable hypothesis -/
+theorem c04_results_prog (es : List (Kind × Expr)) (h : wfList 0 es = true) (inp : Nat → Inp)
+    (cells : Nat → Nat) (cap : Nat) (ops : List Op) (q : Nat) :
+    (fetch (progOf es) (run (progOf es) inp cells cap ops) q).2.val =
+      sem (progOf es) (run (progOf es) inp cells cap ops).inp (run (progOf es) inp cells cap ops).cells q :=
+  c04_results (wf_progOf es h) inp cells cap ops q
+
+/-- **Untracked ⇒ durability LOW, value present** in every reachable state of every well-formed
+    program (`lru` kinds included: an untracked memo is never evicted); hence the durability shortcut
+    can never apply to it: the shallow test passes only with `verified_at = cur`. -/
+theorem c04_never_shallow_lru {P : Prog} (hP : Wf P) (inp : Nat → Inp) (cells : Nat → Nat)
+    (cap : Nat) (ops : List Op) (q : Nat) (m : Memo)
+    (hm : (run P inp cells cap ops).memos q = some m) (hu : m.untracked = true) :
+    m.dur = 0 ∧ m.value = some m.gval ∧
+    (lc (run P inp cells cap ops) m.dur ≤ m.va → m.va = (run P inp cells cap ops).cur) := by
+  have hI := Proofs.Core3E.run_inv hP inp cells cap ops
+  have ok := hI.memo q m hm
+  refine ⟨ok.g6 hu, ?_, fun h => Proofs.Core3E.sok_low hI ok (ok.g6 hu) (Or.inr h)⟩
+  cases hv : m.value with
+  | none => have := ok.evt hv; rw [hu] at this; cases this
+  | some v => rw [ok.valg v hv]
+
 /-! ### Non-vacuity: q0 = (u0 + i0) mod 4 (untracked), q1 = q0 (reader), q2 = i0 (`no_eq`) -/
 
 def exProg : List (Kind × Expr) :=
@@ -100,5 +131,23 @@ example : (run (progOf exProg) exInp exCells 2 [.get 1, .cellSynth 0 2 0, .get 1
 
 example : outputs (progOf exProg) (init exInp exCells 2) [.get 1, .cellSynth 0 2 0, .get 1, .synth 0, .get 1]
     = [1, 3, 3] := by decide
+
+/-! ### Non-vacuity with `lru` kinds: q0 = (u0 + i0) mod 4 (untracked, `lru`), q1 = q0 (`lru`),
+    q2 = min(q1, 1) (`lru`), q3 = q2 (plain) -/
+
+def exProgL : List (Kind × Expr) :=
+  [(.lru, .add (.cell 0) (.inp 0)), (.lru, .qry 0), (.lru, .min (.qry 1) (.const 1)), (.plain, .qry 2)]
+
+example : wfList 0 exProgL = true := by decide
+
+-- capacity 1: the bumps and `evict` evict tracked values (q1 here), never the untracked q0
+example : ((run (progOf exProgL) exInp exCells 1 [.get 3, .cellSynth 0 2 0]).memos 1).map (·.value) = some none := by
+  decide
+example : ∃ m, (run (progOf exProgL) exInp exCells 1 [.get 3, .cellSynth 0 2 0, .evict]).memos 0 = some m ∧
+    m.untracked = true ∧ m.value = some m.gval := ⟨_, rfl, rfl, rfl⟩
+
+example : outputs (progOf exProgL) (init exInp exCells 1)
+    [.get 3, .cellSynth 0 2 0, .get 3, .evict, .get 1, .cellSet 0 3 0 2 none, .get 3, .get 0] = [1, 1, 3, 1, 1] := by
+  decide
 
 end SalsaVerif.Props.C04
